@@ -221,7 +221,7 @@ class C05(B.C04):
         return hand_cases(random.Random(5))
 
     def generate(self, rng, tier):
-        n = 120 if tier == "quick" else 1500
+        n = 170 if tier == "quick" else 1800
         cases = []
         for i in range(n):
             cls = B.CLASSES[i % len(B.CLASSES)]
